@@ -299,7 +299,7 @@ def step (line : String) : String :=
     | some (fs, [ord]) =>
       match natsOf ord with
       | some ord =>
-        match mergePlugins [] (pickOrder fs ord) with
+        match mergePlugins [] (pickOrder (fs.map normFiles) ord) with
         | some m => "ok " ++ showFiles m
         | none => "err"
       | none => "bad-op"
